@@ -164,6 +164,20 @@ CLAIMED = {
         note=BASE_NOTE + 'float32/float64 rounding of XORIG += k*XCELL is not modelled (dyadic cells in the correspondence); PERIM windows of boundary files only through C10.',
         technique='Lean 4 proof (list/arith lemmas over Rat and Int, calendar round-trip) + model/implementation correspondence + independent oracle',
         design='§7 C11'),
+    'C07': dict(
+        text=('Lean model of save (pncgen.Pseudo2NetCDF.convert: dimensions, global attributes, variable definitions with the '
+              'fill precedence missing_value > fill_value > _FillValue, attributes, data with masked cells filled) followed by '
+              'reopen (netCDF4 auto-masking of _FillValue, missing_value and default fills). Theorems: cell_roundtrip, '
+              'var_roundtrip, file_roundtrip: for ALL files whose dtypes the flavour can store, whose attribute names do not '
+              'start with an underscore and whose unmasked values are not values netCDF reads as missing (decidable predicate '
+              'CellOk), reopen(save f) = f up to the _FillValue attribute netCDF adds: same dimensions with unlimited flags, '
+              'attributes, variable order, dtypes, dimension tuples, masks and values; unrepresentable types are rejected; '
+              'mask_lost_counterexample shows what the repaired precedence fixed. Correspondence over four flavours x complevel, '
+              'all dtypes incl. char, rank 0-3, five ways of declaring a fill; independent oracle compares the reopened file with '
+              'the source. One genuine defect repaired by a fix: commit.'),
+        note=BASE_NOTE + 'bit-identity through netCDF-C/HDF5/zlib and netCDF4 auto-masking rules are observed on every run, not proved; attribute values are opaque tokens.',
+        technique='Lean 4 proof (case analysis of the fill/mask logic lifted over lists) + model/implementation correspondence + source-vs-reopened oracle',
+        design='§7 C07'),
     'C06': dict(
         text=('Lean model of file arithmetic (pncbo), mask() and eval over nested arrays of optional rationals; theorems: '
               'for two arrays of one shape (any rank) every result cell is the operator applied to the operand cells at '
